@@ -221,8 +221,9 @@ impl<'r> V11<'r> {
 
 fn run_cfg<TC: ModelCfg>(args: &Args, v: &V11, depth: usize) {
     run_alpha::<TC>(args, v, depth, base_alphabet::<TC>(), false);
+    // tree-shape alphabets: prefixes = the two-label batches (quick: one orientation), every shape batch crashes
     for orient in 0..(if v.thorough { 2 } else { 1 }) {
-        run_alpha::<TC>(args, v, 1, shape_batches::<TC>(orient), !v.thorough);
+        run_alpha::<TC>(args, v, 1, shape_batches::<TC>(orient), true);
     }
 }
 
